@@ -165,6 +165,7 @@ def gen_case(pyrng, present, nmax=12, force=None):
             j = int(g.integers(0, n))
             v = U[:, j] * float(g.choice([1.0, -2.0, 0.5]))
             grades.append(1)
+            c["lam_ratio"] = min(c.get("lam_ratio", 1.0), float(abs(lam[j]) / max(1e-300, np.abs(lam).max())))
         else:
             v = g.normal(size=n) + (1j * g.normal(size=n) if cplx else 0)
             if start == "scaled":
@@ -212,7 +213,7 @@ def gen_mixed_batch(pyrng, nmax=10):
                 v=enc(np.stack(vs, 0)), max_iters=int(g.integers(r + 1, n)), tol=float(g.choice([1e-7, 1e-6, 1e-3])), entry="lanczos")
 
 
-def coq_elem_cases(c, obs, alias_flag_present):
+def coq_elem_cases(c, obs, alias_flag_present, rfix=False):
     """one single-start Coq case per batch element (element b of the batched call against the run on v_b alone)"""
     S = dense_of(c)
     V = dec(c["v"])
@@ -221,7 +222,7 @@ def coq_elem_cases(c, obs, alias_flag_present):
     for b in range(len(obs["Q"])):
         Q = dec(obs["Q"][b]) if obs["Q"][b] else np.zeros((0, c["n"]))
         el = "(" + coq_mat(Q) + "," + coq_vec(dec(obs["off"][b]) if obs["off"][b] else []) + "," + coq_vec(dec(obs["diag"][b])) + ")"
-        out.append(f"mk_lcase {c['n']} {coq_mat(S)} {alias} {coq_mat(V[b:b + 1])} {c['max_iters']} {hexf(c['tol'])} {obs['k']} [{el}]")
+        out.append(f"mk_lcase {c['n']} {coq_mat(S)} {alias} {'true' if rfix else 'false'} {coq_mat(V[b:b + 1])} {c['max_iters']} {hexf(c['tol'])} {obs['k']} [{el}]")
     return out
 
 
@@ -232,7 +233,12 @@ def in_avoided_region(c, present):
     g1 = [gr for gr in c["grades"] if gr <= 1]
     exact0 = c["kind"] == "diag" and c["start"] == "exact_eig"
     if g1 and m >= 2 and not exact0:
-        return "grade1"                                     # lanczos_reltol_first_step
+        if "lanczos_reltol_first_step" in present:
+            return "grade1"                                 # lanczos_reltol_first_step
+        if c.get("lam_ratio", 1.0) < 1e-3:
+            return "null_vector_start"                      # A v ~ 0: the repaired test has no scale to compare with either (||A q_1|| ~ 0)
+        if c["tol"] < 1e-9:
+            return "tol_below_noise"
     if len(set(min(gr, m) for gr in c["grades"])) > 1 or (c["batch"] > 1 and c["start"] == "few" and c.get("style") == "clustered"):
         return "batch_unequal"                              # lanczos_batch_shared_stop (clustered: the step at which an element
                                                             # falls below tol*beta_1 is not predictable from the construction)
@@ -337,7 +343,8 @@ def run_impl(c):
     return obs
 
 
-def coq_case(c, obs, alias_flag_present):
+def coq_case(c, obs, alias_flag_present, rfix=False):
+    """rfix: compare with the model's repaired stopping test (probe says lanczos_reltol_first_step is gone)"""
     S = dense_of(c)
     V = dec(c["v"])
     alias = "true" if (obs.get("alias") and alias_flag_present) else "false"
@@ -345,7 +352,7 @@ def coq_case(c, obs, alias_flag_present):
     for b in range(len(obs["Q"])):
         Q = dec(obs["Q"][b]) if obs["Q"][b] else np.zeros((0, c["n"]))
         outs.append("(" + coq_mat(Q) + "," + coq_vec(dec(obs["off"][b]) if obs["off"][b] else []) + "," + coq_vec(dec(obs["diag"][b])) + ")")
-    return (f"mk_lcase {c['n']} {coq_mat(S)} {alias} {coq_mat(V)} {c['max_iters']} {hexf(c['tol'])} {obs['k']} [" + ";".join(outs) + "]")
+    return (f"mk_lcase {c['n']} {coq_mat(S)} {alias} {'true' if rfix else 'false'} {coq_mat(V)} {c['max_iters']} {hexf(c['tol'])} {obs['k']} [" + ";".join(outs) + "]")
 
 
 HEADER = """From Coq Require Import List PrimFloat.
